@@ -415,7 +415,71 @@ def judge_nested_caller(m):
                                 "(999/998/997 are locals of functions further up the call chain)", case=case, key="nested:order")
 
 
+def judge_reregistered_builtin(m):
+    """The built-in scope is the table of registered transforms AS IT IS when the design is built: a name
+    registered again (a corrected user class, an override of `center`) resolves to the new object, also after
+    other designs have been built; a registered class is a stateful transform (its parameters are frozen)."""
+    import formulae
+    from formulae.transforms import TRANSFORMS, register_stateful_transform
+
+    rng = np.random.default_rng(8)
+    data = pd.DataFrame({"y": rng.normal(size=8), "x": rng.normal(size=8) + 5.0})
+    new = pd.DataFrame({"x": rng.normal(size=3) + 50.0})
+
+    def make(version):
+        class Shift:
+            __transform_name__ = "zq_shift"
+
+            def __init__(self):
+                self.m = None
+
+            def __call__(self, v):
+                if self.m is None:
+                    self.m = float(np.mean(v))
+                return np.asarray(v, dtype=float) - self.m + 100.0 * version
+
+        return Shift
+
+    case = {"role": "re-registered-builtin"}
+    m.current_case = case
+    m.case(case, canon="re-registered-builtin", nontrivial=True)
+    saved = {k: TRANSFORMS.get(k) for k in ("zq_shift", "center")}
+    try:
+        for name in ("zq_shift", "center"):
+            for version in (1, 2, 3):
+                cls = make(version)
+                cls.__transform_name__ = name
+                register_stateful_transform(cls)
+                m.ev("first-defining-scope-wins")
+                try:
+                    dm = formulae.design_matrices(f"y ~ {name}(x)", data)
+                    col = np.asarray(dm.common[f"{name}(x)"], dtype=float).reshape(-1)
+                    want = data["x"].to_numpy() - data["x"].mean() + 100.0 * version
+                    if not np.allclose(col, want):
+                        m.violation("first-defining-scope-wins", f"{name} registered for the {version}. time: the design still uses an "
+                                    f"earlier registration (column mean {col.mean():.1f}, expected {want.mean():.1f})", case=case,
+                                    key="builtin:stale-registration")
+                        continue
+                    got = np.asarray(dm.common.evaluate_new_data(new).design_matrix, dtype=float)[:, 1]
+                    want2 = new["x"].to_numpy() - data["x"].mean() + 100.0 * version
+                    if not np.allclose(got, want2):
+                        m.violation("first-defining-scope-wins", f"{name} registered for the {version}. time: at prediction the registered "
+                                    "class is not treated as a stateful transform (parameters re-estimated or another class used)",
+                                    case=case, key="builtin:stale-registration-newdata")
+                except Exception as e:
+                    m.violation("first-defining-scope-wins", f"{name} registered for the {version}. time: {type(e).__name__}: {e}", case=case,
+                                key="builtin:registration-raises")
+    finally:
+        for k, v in saved.items():
+            if v is None:
+                TRANSFORMS.pop(k, None)
+            else:
+                TRANSFORMS[k] = v
+
+
 def run_shard(i, n, tier, seed, m):
+    if i == 2 % n:
+        core.guarded(judge_reregistered_builtin)(m)
     if i == 0:
         core.guarded(judge_env_object)(m)
         core.guarded(judge_newdata_precedence)(m)
